@@ -10,10 +10,10 @@ import (
 
 func init() {
 	register(&propDef{
-		ID:    "C10",
-		Title: "ECS is echoed faithfully with a truthful scope",
-		Run:   runC10,
-		Explanation: "Structural necessary conditions, decided on SSA: (readonly) the only field of a client-subnet option that is ever written, outside freshly built options, is SourceScope, and the option attached to the reply is the one found in the request; (scope-guard) every subtraction of the IPv4-in-IPv6 family offset from an unsigned prefix length is dominated by a >= offset test (uint8 wrap gives scopes above 32); (defaults) constant scopes are 0, 24 (IPv4) and 48 (IPv6) only; (opt) both OPT re-attachment blocks (cache hit, computed answer) are guarded by the request carrying EDNS0, append the option under ecs != nil and prepend the OPT to the message that is written; (fallback) the resolver lookup is taken iff the ECS lookup produced no location. The scope value for all subnet configurations is not decided.",
+		ID:          "C10",
+		Title:       "ECS is echoed faithfully with a truthful scope",
+		Run:         runC10,
+		Explanation: "Structural necessary conditions, decided on SSA: (readonly) the only field of a client-subnet option that is ever written, outside freshly built options, is SourceScope, and the option attached to the reply is the one found in the request; (scope-guard) every subtraction of the IPv4-in-IPv6 family offset from an unsigned prefix length is dominated by a >= offset test (uint8 wrap gives scopes above 32); (defaults) constant scopes are 0, 24 (IPv4) and 48 (IPv6) only; (opt) both OPT re-attachment blocks (cache hit, computed answer) are guarded by the request carrying EDNS0, append the option under ecs != nil and prepend the OPT to the message that is written; (fallback) the resolver lookup is taken iff the ECS lookup produced no location; (scope-family) the family test that governs the scope conversion reads the echoed option's own Family field; (cache-isolation, cache-before-opt) the response cache stores a copy taken before the OPT/ECS decoration and hands out only copies, so one client's option never appears in another's reply. The scope value for all subnet configurations is not decided.",
 	})
 }
 
@@ -23,6 +23,10 @@ func runC10(c *Ctx) {
 	c10Defaults(c)
 	c10Opt(c)
 	c10Fallback(c)
+	c10ScopeFamily(c)
+	// the cached message must not alias the message that is decorated with OPT/ECS for one particular client, and it is
+	// stored before the decoration: otherwise one client's OPT/client-subnet option leaks into another client's reply
+	c.importRules(runC12, "C12", map[string]string{"copy": "cache-isolation", "before-opt": "cache-before-opt"})
 }
 
 func ecsType(c *Ctx) types.Type { return namedType(c, dnsPkg, "EDNS0_SUBNET") }
@@ -225,6 +229,93 @@ func c10Defaults(c *Ctx) {
 		}
 	}
 	c.Floor(rule, 3)
+}
+
+// c10ScopeFamily implements C10.scope-family: the scope is expressed in the family of the option that is echoed.
+// EcsLocation may look the subnet up in another form (an IPv4-mapped IPv6 subnet is looked up as IPv4), so the
+// family that governs the conversion of the matched prefix length must be read from the option itself.
+func c10ScopeFamily(c *Ctx) {
+	rule := "C10.scope-family"
+	c.Rule(rule, "A2 in EcsLocation: every family test that a store to SourceScope is control dependent on compares a direct load of the echoed option's Family field (not a local that may have been rewritten for the lookup); the removal of the 96-bit offset happens under such a test for family 1")
+	fn := c.Func("db", "(*DataReader).EcsLocation")
+	c.Examined(fn)
+	isFamilyLoad := func(v ssa.Value) bool {
+		u, ok := unwrap(v).(*ssa.UnOp)
+		if !ok || u.Op != token.MUL {
+			return false
+		}
+		fa, ok := u.X.(*ssa.FieldAddr)
+		if !ok || !isEcsPtr(c, fa.X.Type()) || fieldName(fa.X.Type(), fa.Field) != "Family" {
+			return false
+		}
+		_, isParam := fa.X.(*ssa.Parameter)
+		return isParam
+	}
+	derivesFromFamily := func(v ssa.Value) bool {
+		for x := range backSlice(v, nil) {
+			if isFamilyLoad(x) {
+				return true
+			}
+		}
+		return isFamilyLoad(v)
+	}
+	n := 0
+	for _, b := range fn.Blocks {
+		for _, in := range b.Instrs {
+			st, ok := in.(*ssa.Store)
+			if !ok {
+				continue
+			}
+			fa, ok := st.Addr.(*ssa.FieldAddr)
+			if !ok || !isEcsPtr(c, fa.X.Type()) || fieldName(fa.X.Type(), fa.Field) != "SourceScope" {
+				continue
+			}
+			n++
+			direct := true
+			fam1 := false
+			var bad string
+			for _, f := range factsAt(b) {
+				cmp, isB := f.V.(*ssa.BinOp)
+				if !isB {
+					continue
+				}
+				for _, pr := range [][2]ssa.Value{{cmp.X, cmp.Y}, {cmp.Y, cmp.X}} {
+					k, isK := constInt(pr[1])
+					if !isK || !derivesFromFamily(pr[0]) {
+						continue
+					}
+					allDirect := true
+					for src := range sourcesOf(pr[0]) {
+						if src == nil || !isFamilyLoad(src) {
+							allDirect = false
+						}
+					}
+					if !allDirect {
+						direct = false
+						bad = describeValue(unwrap(pr[0]))
+						continue
+					}
+					if (cmp.Op == token.EQL && f.Truth && k == 1) || (cmp.Op == token.NEQ && !f.Truth && k == 1) {
+						fam1 = true
+					}
+				}
+			}
+			key := fmt.Sprintf("%s|scope-store#%d", fnName(fn), n)
+			c.Check(rule, key+"|family-of-echoed-option", direct, st.Pos(), "a family test governing the scope reads ecs.Family itself; offending operand: "+bad)
+			sub96 := false
+			for v := range backSlice(st.Val, func(v ssa.Value) bool { _, isCall := v.(*ssa.Call); return isCall }) {
+				if bo, isBo := v.(*ssa.BinOp); isBo && bo.Op == token.SUB {
+					if k, isK := constInt(bo.Y); isK && k == 96 {
+						sub96 = true
+					}
+				}
+			}
+			if sub96 {
+				c.Check(rule, key+"|offset-removed-for-family-1-only", fam1, st.Pos(), "the 96-bit offset is removed only when the echoed option is IPv4")
+			}
+		}
+	}
+	c.Floor(rule, 4)
 }
 
 func c10Opt(c *Ctx) {
